@@ -129,8 +129,8 @@ Definition dec_to_string (d : dec) : bytes := fmt_prec (d_scale d) d.
 
 Fixpoint drop_zeros (l : list N) : list N :=
   match l with
-  | 0 :: r => drop_zeros r
-  | _ => l
+  | x :: r => if x =? 0 then drop_zeros r else l
+  | [] => []
   end.
 (* util/decimal.rs to_string_min_precision: group 5 of the regex is the
    fractional part without its trailing zeros *)
@@ -183,9 +183,10 @@ Definition dec_of_parts (neg : bool) (x : N * nat) : dec :=
 Definition parse_dec_gen (exact : bool) (s : bytes) : res dec :=
   match s with
   | [] => Rej rej_dec
-  | 45 :: r => x <- dec_scan exact r 0 0%nat false false ;; Ok (dec_of_parts true x)
-  | 43 :: r => x <- dec_scan exact r 0 0%nat false false ;; Ok (dec_of_parts false x)
-  | _ => x <- dec_scan exact s 0 0%nat false false ;; Ok (dec_of_parts false x)
+  | c :: r =>
+      if c =? 45 then x <- dec_scan exact r 0 0%nat false false ;; Ok (dec_of_parts true x)
+      else if c =? 43 then x <- dec_scan exact r 0 0%nat false false ;; Ok (dec_of_parts false x)
+      else x <- dec_scan exact s 0 0%nat false false ;; Ok (dec_of_parts false x)
   end.
 Definition parse_dec : bytes -> res dec := parse_dec_gen false.
 Definition parse_dec_exact : bytes -> res dec := parse_dec_gen true.
@@ -201,6 +202,8 @@ Definition mag_eqb (a b : dec) : bool :=
   d_mant a * pow10 (d_scale b) =? d_mant b * pow10 (d_scale a).
 Definition mag_ltb (a b : dec) : bool :=
   d_mant a * pow10 (d_scale b) <? d_mant b * pow10 (d_scale a).
+(* same sign flag and same number *)
+Definition dec_eqv (a b : dec) : bool := Bool.eqb (d_neg a) (d_neg b) && mag_eqb a b.
 Definition dec_is_integer (d : dec) : bool := (d_mant d) mod (pow10 (d_scale d)) =? 0.
 Definition dec_one : dec := mk_dec false 1 0.
 Definition dec_zero : dec := mk_dec false 0 0.
@@ -330,7 +333,7 @@ Record sflin : Type := { sf_val : dec; sf_force : bool }.
 Definition show_sfl (v : sflin) : bytes := tsmp 2 (sf_val v) ++ (if sf_force v then [33] else []).
 Definition rej_sfl : rej := RejParse 4.
 Definition parse_sfl (s : bytes) : res sflin :=
-  let force := match rev s with 33 :: _ => true | _ => false end in
+  let force := match rev s with c :: _ => c =? 33 | [] => false end in
   let num := if force then removelast s else s in
   match parse_dec num with
   | Ok d => if dec_lez d then Ok {| sf_val := d; sf_force := force |} else Rej rej_sfl
@@ -392,3 +395,21 @@ Definition parse_ratio (s0 : bytes) : res ratio :=
       | Panic p => Panic p
       end
   end.
+
+(* ---- executable validity of field values (the domain of C11) ---- *)
+Definition valid_dec (d : dec) : bool :=
+  (d_mant d <=? max_mant) && (d_scale d <=? 28)%nat && negb (d_neg d && (d_mant d =? 0)).
+(* a security: non-empty and without surrounding white space *)
+Definition valid_sec (s : bytes) : bool := negb (is_nil s) && beqb (trim s) s.
+(* a Currency value: as produced by Currency::new on ASCII text *)
+Definition valid_cur (c : bytes) : bool :=
+  negb (is_nil c) && is_ascii c && beqb (upper c) c && beqb (trim c) c.
+Definition valid_sfl (v : sflin) : bool := valid_dec (sf_val v) && dec_lez (sf_val v).
+Definition int_part (d : dec) : N := d_mant d / pow10 (d_scale d).
+(* a SplitRatio: the invariants of SplitRatio::parse (integer-only flag only
+   on whole-number reverse splits) and terms whose "{:.1}" rendering fits *)
+Definition valid_ratio (r : ratio) : bool :=
+  valid_dec (r_post r) && valid_dec (r_pre r) && dec_pos (r_post r) && dec_pos (r_pre r)
+  && (negb (r_rio r) || (ratio_is_reverse r && dec_is_integer (r_post r) && dec_is_integer (r_pre r)))
+  && (negb (dec_is_integer (r_post r) && dec_is_integer (r_pre r) && ratio_is_reverse r && negb (r_rio r))
+      || ((int_part (r_post r) * 10 <=? max_mant) && (int_part (r_pre r) * 10 <=? max_mant))).
